@@ -139,6 +139,28 @@ func Main(args []string) int {
 	}
 	t0 := time.Now()
 	runs := runConfigs(*repo, configsFor(*tier))
+	// a source file excluded by build constraints from every configuration so far: add
+	// configurations until it is covered (a static tool sees only what was parsed)
+	extra := []Config{{GOOS: "darwin", GOARCH: "arm64"}, {GOOS: "windows", GOARCH: "amd64"}, {GOOS: "linux", GOARCH: "386"}, {GOOS: "linux", GOARCH: "arm64"}, {GOOS: "freebsd", GOARCH: "amd64"}, {GOOS: "js", GOARCH: "wasm"}}
+	for _, c := range extra {
+		if len(neverAnalysed(runs)) == 0 {
+			break
+		}
+		have := false
+		for _, cr := range runs {
+			if cr.Cfg.GOOS == c.GOOS && cr.Cfg.GOARCH == c.GOARCH {
+				have = true
+			}
+		}
+		if have {
+			continue
+		}
+		before := len(neverAnalysed(runs))
+		more := runConfigs(*repo, []Config{c, {GOOS: c.GOOS, GOARCH: c.GOARCH, Tags: []string{"verif"}}})
+		if len(neverAnalysed(append(append([]*configRun{}, runs...), more...))) < before {
+			runs = append(runs, more...)
+		}
+	}
 	findings := loadFindings(*known)
 	rc := 0
 	for _, p := range props {
@@ -147,6 +169,29 @@ func Main(args []string) int {
 		}
 	}
 	return rc
+}
+
+// neverAnalysed lists the non-test source files that no loaded configuration includes.
+func neverAnalysed(runs []*configRun) []string {
+	count := map[string]int{}
+	n := 0
+	for _, cr := range runs {
+		if cr.Err != nil || cr.An == nil {
+			continue
+		}
+		n++
+		for _, u := range cr.An.P.Unanalysed {
+			count[u]++
+		}
+	}
+	var out []string
+	for u, c := range count {
+		if c == n {
+			out = append(out, u)
+		}
+	}
+	sort.Strings(out)
+	return out
 }
 
 func flagSet(fs *flag.FlagSet, name string) bool {
@@ -197,9 +242,6 @@ func decide(p *Property, runs []*configRun, findings []Finding, tier string, see
 		blocks += a.P.NumBlocks
 		instrs += a.P.NumInstrs
 		contexts += a.Contexts
-		for _, u := range a.P.Unanalysed {
-			unanalysed = append(unanalysed, cr.Cfg.String()+": "+u)
-		}
 		n := 0
 		for _, o := range a.R.Obls {
 			if ruleSet[o.Rule] {
@@ -238,10 +280,10 @@ func decide(p *Property, runs []*configRun, findings []Finding, tier string, see
 		if n == 0 {
 			all = append(all, Obligation{Rule: "FLOOR", Key: "floor/obligations", Pos: "-", Outcome: Undecided, Config: cr.Cfg.String(), Detail: "no obligation was generated for this property"})
 		}
-		// unanalysed files fail every check
-		for _, u := range a.P.Unanalysed {
-			all = append(all, Obligation{Rule: "LOAD", Key: "unanalysed/" + u, Pos: u, Outcome: Undecided, Config: cr.Cfg.String(), Detail: "source file is not part of any analysed configuration"})
-		}
+	}
+	// a file no configuration includes fails every check
+	for _, u := range neverAnalysed(runs) {
+		all = append(all, Obligation{Rule: "LOAD", Key: "unanalysed/" + u, Pos: u, Outcome: Undecided, Config: "all", Detail: "source file is not part of any analysed build configuration"})
 	}
 	// merge identical obligations across configurations
 	type mk struct{ rule, key, detail, pos string; out Outcome }
@@ -279,6 +321,7 @@ func decide(p *Property, runs []*configRun, findings []Finding, tier string, see
 		}
 		obls = append(obls, o)
 	}
+	unanalysed = neverAnalysed(runs)
 	SortObligations(obls)
 	total, discharged := len(obls), 0
 	var failing []Obligation
